@@ -19,7 +19,7 @@ from ..norm import Affine, Canon, Lit, Logic, affine, effects_of_event, minmax_t
 from ..paths import Frame, bind_args, cached_paths, function_paths
 from .common import call_name, short, stmt_contains
 
-FLOORS = {'C18.V1': 2, 'C18.V2': 2, 'C18.V3': 6, 'C18.V4': 4, 'C18.V5': 2}
+FLOORS = {'C18.V1': 2, 'C18.V2': 2, 'C18.V3': 6, 'C18.V4': 4, 'C18.V5': 2, 'C18.V6': 2, 'C18.V7': 2}
 
 MOVERS = {
     'Buffer.move_hot_to_cold': ('HotBuffer', 'ColdBuffer'),
@@ -152,6 +152,9 @@ def check(repo, res, tier):
                        '= -(data moved), same new residual; the loop raises when the residuals differ')
     res.rule('C18.V4', 'source pops the observation into its transfer slot; receiver appends it to stored '
                        'and clears the slot exactly when the residual reaches 0')
+    res.rule('C18.V6', 'the transfer loop is entered only if the DESTINATION tier has room')
+    res.rule('C18.V7', 'the remaining-data counter of a move is local to that move')
+    res.rule('C18.V8', 'the published pending-transfer volume is the current residual')
     res.rule('C18.V5', 'the refusing path (destination lacks room) restores every attribute written since entry')
     res.assumptions += ['transfer rates are non-zero (rate 0 is excluded; the siblings disagree there)',
                         'one hot and one cold tier']
@@ -297,6 +300,90 @@ def check(repo, res, tier):
                                      'stored list when the move starts: it would be stored in both tiers')
         # ---- V5 --------------------------------------------------------------
         refusal(repo, res, canon, f, src_cls)
+        # ---- V6 admission is asked of the DESTINATION tier -----------------------
+        admission(repo, res, canon, logic, f, src_cls, dst_cls)
+        # ---- V7 the residual that drives the loop is private to this move --------
+        private_residual(repo, res, canon, f, rc, sc)
+
+
+def admission(repo, res, canon, logic, f, src_cls, dst_cls):
+    from .common import path_must
+    fr = Frame(f)
+    loops = [n for n in walk_no_nested(f.node) if isinstance(n, ast.While)]
+    if not loops:
+        return
+    lp = loops[0]
+    ok = True
+    why = ''
+    n = 0
+    for p in cached_paths(f):
+        idx = [i for i, e in enumerate(p.events) if e.kind == 'loop' and e.node is lp]
+        if not idx:
+            continue
+        n += 1
+        must = path_must(logic, p, idx[0], depth=0)
+        lits = [l for l in must if l.pol and l.atom.startswith('truthy(') and '.has_capacity_for(' in l.atom]
+        if not any(l.atom.startswith('truthy(%s.has_capacity_for(' % dst_cls) for l in lits):
+            asked = [l.atom[7:].split('.has_capacity_for')[0] for l in lits]
+            ok, why = False, ('the transfer loop is entered after asking %s for room, not the destination tier %s' % (
+                asked or 'nobody', dst_cls))
+    (res.ok if ok and n else res.bad)('C18.V6', f, lp, '%s: the move proceeds only if the destination (%s) has room' % (f.name, dst_cls),
+                                      'ok' if ok and n else why + ': a move into a full tier is accepted (free space goes negative) '
+                                      'or a legal move is refused')
+
+
+def private_residual(repo, res, canon, f, rc, sc):
+    from ..paths import assigned_names
+    fr = Frame(f)
+    local = set(assigned_names(f)) - set(f.params)
+    cal_r, _ = repo.resolve_call(rc, f)
+    cal_s, _ = repo.resolve_call(sc, f)
+    args = []
+    from ..paths import bind_args
+    for cal, call in ((cal_r[0], rc), (cal_s[0], sc)):
+        b = bind_args(cal, call, fr)
+        if 'residual_data' in b:
+            args.append(b['residual_data'][0])
+    loops = [n for n in walk_no_nested(f.node) if isinstance(n, ast.While)]
+    tests = []
+    for lp in loops:
+        for n in ast.walk(lp):
+            if isinstance(n, ast.If) and isinstance(n.test, ast.Compare) and any(
+                    isinstance(x, ast.Break) for s in n.body for x in ast.walk(s)):
+                tests.append(n.test.left)
+    bad = [a for a in args + tests if not (isinstance(a, ast.Name) and a.id in local)]
+    what = '%s: the remaining-data counter of the loop is a local of this move' % f.name
+    if bad:
+        res.bad('C18.V7', f, bad[0], '%s drives its loop with %s' % (f.name, short(ast.unparse(bad[0]), 50)),
+                'the amount still to move is kept in %s, which other processes (a second, overlapping move; the buffer '
+                'loop) read and write: two moves in flight drain one counter and an observation ends up in no tier' % short(ast.unparse(bad[0]), 50),
+                what=what)
+    else:
+        res.ok('C18.V7', f, None, what)
+    # V8: what the move publishes for the buffer loop is the current residual
+    pub = 'Buffer._data_left_to_transfer'
+    for lp in loops:
+        from .common import iteration_segments
+        for seg, how in iteration_segments(f, lp):
+            if how != 'back':
+                continue
+            last_pub = None
+            last_upd = None
+            for i, e in enumerate(seg):
+                if e.kind == 'stmt' and isinstance(e.node, ast.Assign):
+                    tgt = canon.c(e.node.targets[0], fr)
+                    if tgt == pub:
+                        last_pub = (i, e.node)
+                    if isinstance(e.node.value, ast.Call) and call_name(e.node.value) == 'transfer_observation':
+                        last_upd = (i, e.node)
+            if last_pub and last_upd:
+                okp = last_pub[0] > last_upd[0] and isinstance(last_pub[1].value, ast.Name) and isinstance(
+                    last_upd[1].targets[0], ast.Name) and last_pub[1].value.id == last_upd[1].targets[0].id
+                (res.ok if okp else res.bad)(
+                    'C18.V8', f, last_pub[1], '%s publishes the residual after updating it' % f.name,
+                    'ok' if okp else 'the pending-transfer volume seen by the buffer loop is written before this step\'s '
+                    'transfer is subtracted: after the move completes it keeps the last chunk instead of 0, and the '
+                    'buffer loop\'s tiering decisions (cold->hot return) are made on stale data')
 
 
 def _norm_case(r):
